@@ -73,6 +73,110 @@ where
     }
 }
 
+/// forwards everything to `inner` but refuses the k-th vertex; used to drive builders other than the plain
+/// BuffersBuilder (the inverted-winding adapter) through the same faults
+struct FailAt<B> {
+    inner: B,
+    fail_at: Option<usize>,
+    seen: usize,
+}
+impl<B: lyon_tessellation::GeometryBuilder> lyon_tessellation::GeometryBuilder for FailAt<B> {
+    fn begin_geometry(&mut self) {
+        self.inner.begin_geometry()
+    }
+    fn end_geometry(&mut self) {
+        self.inner.end_geometry()
+    }
+    fn add_triangle(&mut self, a: lyon_tessellation::VertexId, b: lyon_tessellation::VertexId, c: lyon_tessellation::VertexId) {
+        self.inner.add_triangle(a, b, c)
+    }
+    fn abort_geometry(&mut self) {
+        self.inner.abort_geometry()
+    }
+}
+impl<B: lyon_tessellation::FillGeometryBuilder> lyon_tessellation::FillGeometryBuilder for FailAt<B> {
+    fn add_fill_vertex(&mut self, v: lyon_tessellation::FillVertex) -> Result<lyon_tessellation::VertexId, lyon_tessellation::GeometryBuilderError> {
+        self.seen += 1;
+        if self.fail_at == Some(self.seen - 1) {
+            return Err(lyon_tessellation::GeometryBuilderError::TooManyVertices);
+        }
+        self.inner.add_fill_vertex(v)
+    }
+}
+impl<B: lyon_tessellation::StrokeGeometryBuilder> lyon_tessellation::StrokeGeometryBuilder for FailAt<B> {
+    fn add_stroke_vertex(&mut self, v: lyon_tessellation::StrokeVertex) -> Result<lyon_tessellation::VertexId, lyon_tessellation::GeometryBuilderError> {
+        self.seen += 1;
+        if self.fail_at == Some(self.seen - 1) {
+            return Err(lyon_tessellation::GeometryBuilderError::TooManyVertices);
+        }
+        self.inner.add_stroke_vertex(v)
+    }
+}
+
+fn exec_fill_dyn(job: &Job, fb: &mut dyn lyon_tessellation::FillGeometryBuilder) -> lyon_tessellation::TessellationResult {
+    match job {
+        Job::Fill(e, spec) => run_fill(*e, &mut FillTessellator::new(), spec, &FillOptions::tolerance(0.05), fb),
+        Job::FillShape(s) => run_fill_shape(&mut FillTessellator::new(), s, &FillOptions::tolerance(0.05), fb),
+        Job::FillTol(e, spec, t) => run_fill(*e, &mut FillTessellator::new(), spec, &FillOptions::tolerance(*t), fb),
+        Job::FillShapeTol(s, t) => run_fill_shape(&mut FillTessellator::new(), s, &FillOptions::tolerance(*t), fb),
+        _ => Ok(()),
+    }
+}
+fn exec_stroke_dyn(job: &Job, sb: &mut dyn lyon_tessellation::StrokeGeometryBuilder) -> lyon_tessellation::TessellationResult {
+    match job {
+        Job::Stroke(e, spec, j, c) => {
+            let o = StrokeOptions::tolerance(0.05).with_line_width(1.5).with_line_join(*j).with_line_cap(*c);
+            run_stroke(*e, &mut StrokeTessellator::new(), spec, &o, sb)
+        }
+        Job::StrokeShape(s) => run_stroke_shape(&mut StrokeTessellator::new(), s, &StrokeOptions::tolerance(0.05).with_line_width(1.0), sb),
+        _ => Ok(()),
+    }
+}
+
+/// the inverted-winding adapter around a BuffersBuilder: same all-or-nothing contract, evaluated directly on the
+/// buffers (u16 indices, pre-filled; refusal of the k-th vertex and natural overflow)
+fn inverted_winding_checks(job: &Job, st: &mut Stats, nv: usize) {
+    use lyon_tessellation::geometry_builder::{BuffersBuilder, Positions};
+    let is_stroke = matches!(job, Job::Stroke(..) | Job::StrokeShape(_));
+    let mut faults: Vec<(usize, Option<usize>)> = vec![(4, None)];
+    for k in [0usize, 1, 2, 5, 11] {
+        if k < nv {
+            faults.push((4, Some(k)));
+        }
+    }
+    for j in [0usize, 1, 3, 7] {
+        if j <= nv {
+            faults.push((65535 - j, None));
+        }
+    }
+    for (pre_v, fail_at) in faults {
+        let mut buffers: VertexBuffers<Point, u16> = VertexBuffers::new();
+        buffers.vertices = vec![point(-1.0, -1.0); pre_v];
+        buffers.indices = vec![0, 1, 2, 2, 1, 3];
+        let before_i = buffers.indices.clone();
+        st.inc("inverted_winding_runs");
+        let r = {
+            let mut fb = FailAt { inner: BuffersBuilder::new(&mut buffers, Positions).with_inverted_winding(), fail_at, seen: 0 };
+            catch(AssertUnwindSafe(|| if is_stroke { exec_stroke_dyn(job, &mut fb).is_ok() } else { exec_fill_dyn(job, &mut fb).is_ok() }))
+        };
+        let text = format!("with_inverted_winding {:?} pre-filled {} vertices, refusing vertex {:?}", job, pre_v, fail_at);
+        match r {
+            None => st.fail(jobj(&[("what", jstr("tessellation through the inverted-winding builder panicked")), ("input", jstr(&text))])),
+            Some(false) => {
+                if buffers.vertices.len() != pre_v || buffers.indices != before_i {
+                    st.fail(jobj(&[("what", jstr("a failed call through the inverted-winding builder did not restore the caller's buffers")), ("input", jstr(&format!("{} -> {} vertices, {} indices", text, buffers.vertices.len(), buffers.indices.len())))]));
+                }
+            }
+            Some(true) => {
+                let n = buffers.vertices.len();
+                if buffers.indices[..6] != before_i[..] || buffers.indices[6..].iter().any(|i| (*i as usize) < pre_v || (*i as usize) >= n) || (buffers.indices.len() - 6) % 3 != 0 {
+                    st.fail(jobj(&[("what", jstr("a successful call through the inverted-winding builder touched earlier contents or produced indices outside the new vertices")), ("input", jstr(&text))]));
+                }
+            }
+        }
+    }
+}
+
 struct Cx<'a> {
     w: &'a mut ShardWriter,
     st: &'a mut Stats,
@@ -207,6 +311,7 @@ pub fn main(args: &Args) -> std::io::Result<()> {
         report(&mut cx, job, "unfaulted", 4294967296, 4294967295, 4, &pre_i, None, &base);
         let nv = base.seen;
         cx.st.add("fault_positions", nv as u64);
+        inverted_winding_checks(job, cx.st, nv);
         // the builder refuses the k-th vertex, for every k
         let step = if args.thorough() || nv <= 60 { 1 } else { (nv / 60).max(1) };
         let mut k = 0;
